@@ -589,6 +589,71 @@ func (w *World) faultyCall() {
 	_ = a.Ext.Extend(w.ctx, ps, in, eg, peers)
 }
 
+// concurrentExtend: the originator extends one beacon per interface and the propagator one per
+// (beacon, interface) pair in goroutines of their own, all on the AS's one extender. Here 2-4 such
+// extensions of one AS run as real goroutines that the seeded scheduler interleaves at every MAC
+// operation; each resulting entry is judged by the C23 oracle like any other.
+func (w *World) concurrentExtend() {
+	r := w.r
+	a := w.ASes[r.Choice("cx.as", len(w.ASes))]
+	egs := a.ifsOfType(topology.Child, topology.Core)
+	if len(egs) == 0 {
+		return
+	}
+	rows, err := a.BeaconDB.GetBeacons(w.ctx, nil)
+	if err != nil {
+		panic(core.InfraError{Msg: "GetBeacons: " + err.Error()})
+	}
+	type job struct {
+		ps     *seg.PathSegment
+		in, eg uint16
+	}
+	n := 2 + r.Choice("cx.n", 3)
+	var jobs []job
+	for k := 0; k < n; k++ {
+		eg := egs[r.Choice("cx.eg", len(egs))]
+		if len(rows) > 0 && r.Chance("cx.propagate", 1, 2) {
+			b := rows[r.Choice("cx.beacon", len(rows))]
+			cp, err := seg.BeaconFromPB(seg.PathSegmentToPB(b.Beacon.Segment))
+			if err != nil {
+				panic(core.InfraError{Msg: "copying beacon: " + err.Error()})
+			}
+			jobs = append(jobs, job{cp, b.Beacon.InIfID, eg})
+			continue
+		}
+		ps, err := seg.CreateSegment(time.Now(), uint16(r.Choice("cx.segid", 1<<16)))
+		if err != nil {
+			panic(core.InfraError{Msg: "CreateSegment: " + err.Error()})
+		}
+		jobs = append(jobs, job{ps, 0, eg})
+	}
+	peers := a.ifsOfType(topology.Peer)
+	sched := core.NewSched()
+	w.xsched = sched
+	for k := range jobs {
+		go func(k int) {
+			sched.Register(fmt.Sprintf("extend:%d", k))
+			defer sched.Done()
+			sched.Yield("start")
+			j := jobs[k]
+			_ = a.Ext.Extend(w.ctx, j.ps, j.in, j.eg, peers)
+		}(k)
+	}
+	for steps := 0; ; steps++ {
+		if sched.Step(r, nil) == nil {
+			if bl := sched.Blocked(); len(bl) > 0 {
+				panic(core.InfraError{Msg: "concurrent Extend blocked outside a yield point: " + bl[0].Name})
+			}
+			break
+		}
+		if steps > 100000 {
+			panic(core.InfraError{Msg: "concurrent Extend does not end"})
+		}
+	}
+	w.xsched = nil
+	r.Probe("extends-interleaved")
+}
+
 // ---- the run ----
 
 func runWith(cfg Config) core.RunFunc {
@@ -601,6 +666,9 @@ func runWith(cfg Config) core.RunFunc {
 			w.storedAt = map[int]int{}
 			acts := []string{"deliver", "deliver", "deliver", "originate", "propagate", "propagate", "deliver", "burst", "tick",
 				"register", "deliver", "originate", "propagate", "burst", "deliver", "propagate"}
+			if cfg.JudgeC23 {
+				acts = append(acts, "concurrent-extend", "concurrent-extend")
+			}
 			if cfg.ClockJumps {
 				acts = append(acts, "jump")
 			}
@@ -637,6 +705,8 @@ func runWith(cfg Config) core.RunFunc {
 					w.registerSelect()
 				case "replay":
 					w.replay()
+				case "concurrent-extend":
+					w.concurrentExtend()
 				case "faultycall":
 					w.faultyCall()
 				case "forge":
